@@ -1,6 +1,6 @@
 (* S5: introduce_variables inserts after the maximal prefix of set-info /
    set-logic commands; apply_simp is substitute followed by that insertion. *)
-From DD Require Import Model.Subst.
+From DD Require Import Base.Lit Model.Subst.
 
 Lemma prefix_firstn l : forallb is_prefix_cmd (firstn (prefix_len l) l) = true.
 Proof.
@@ -26,6 +26,20 @@ Proof.
   split; [symmetry; apply firstn_skipn|]. split; [reflexivity|].
   split; [apply prefix_firstn|apply prefix_skipn].
 Qed.
+
+(* F70: a comment leaf at the head of the script belongs to the prefix: the declarations go after it *)
+Theorem introduce_variables_skips_header_comments_proof : forall i s rest vars,
+  introduce_variables (NL i (59%N :: s) :: rest) vars = NL i (59%N :: s) :: introduce_variables rest vars.
+Proof. reflexivity. Qed.
+
+(* "; header" "(set-logic X)" "(declare-const a Bool)" + the declaration of v: it goes after (set-logic X) *)
+Example introduce_variables_header_comment_ex :
+  let header := NL 1 (lit "; header") in
+  let setlogic := NT 4 0 [NL 2 (lit "set-logic"); NL 3 (lit "X")] in
+  let decl := NT 8 0 [NL 5 (lit "declare-const"); NL 6 (lit "a"); NL 7 (lit "Bool")] in
+  let var := NT 12 0 [NL 9 (lit "declare-const"); NL 10 (lit "v"); NL 11 (lit "Bool")] in
+  introduce_variables [header; setlogic; decl] [var] = [header; setlogic; var; decl].
+Proof. vm_compute. reflexivity. Qed.
 
 Section ApplySimp.
   Variable hstr : str -> Z.
